@@ -1,12 +1,16 @@
 (* C18 - A provision parsed alone equals the provision parsed in context.
    [partial] Proved: the provision's own eId is the same in the whole document and in the fragment
    parsed with the enclosing element's eId as prefix, whenever it is derived from its number and
-   unsuffixed in both (a function of the path labels alone).  Not yet proved: that the ids inside the
-   provision coincide too (needs a simulation between the two generator states on keys extending the
-   provision's id) and that the grammar parses the provision's lines alone as it does in context.
-   Both are decided by the fragment oracle on the implementation. *)
+   unsuffixed in both (a function of the path labels alone); and the ids inside the provision coincide too:
+   eId generation for a subtree is local to the keys under its prefix (C18_rewrite_is_local), so a numbered
+   provision rewritten in context - from whatever generator state the earlier part of the document left,
+   as long as no earlier key extends the provision's own id - and rewritten alone from a fresh generator
+   with the same prefix is the same tree, ids of all descendants included (C18_provision_ids_agree).
+   Not proved: that the grammar parses the provision's lines alone as it does in context, and that an
+   earlier id never extends a later provision's id (unique decomposition of ids at underscores); both are
+   decided by the fragment oracle on the implementation. *)
 Require Import BB.Base.Str BB.Base.Xml BB.Gen.TablesXml BB.Model.Eid BB.Model.EidSpec.
-Require Import BB.Proofs.EidConvention.
+Require Import BB.Proofs.EidConvention BB.Proofs.EidLocal.
 
 (* whole document e1 (provision at path pi1 under prefix q) and fragment e2 (the provision as root,
    pi2 = [], parsed with prefix q2 = the prefix the document hands down to it): if the labels agree
@@ -23,3 +27,38 @@ Theorem C18_fragment_follows_convention : forall e q s e' s',
   rewrite_eid e q s = Some (e', s') -> convention_ok q e'.
 Proof. exact rewrite_convention. Qed.
 Print Assumptions C18_fragment_follows_convention.
+
+(* eId generation is local: rewriting a subtree under prefix q reads and writes the generator only at keys
+   under q (q itself or q__...); two generator states that agree on a set of keys P containing those give
+   the same tree and agree on P afterwards *)
+Theorem C18_rewrite_is_local : forall (P : str -> Prop) e q s t e' s1,
+  closed P q -> agree P s t -> rewrite_eid e q s = Some (e', s1) ->
+  exists t1, rewrite_eid e q t = Some (e', t1) /\ agree P s1 t1.
+Proof. exact rewrite_eid_local. Qed.
+Print Assumptions C18_rewrite_is_local.
+
+(* a provision that takes its number from its own num: rewritten in context (prefix q, generator state s
+   left by the earlier part of the document, in which no key extends the provision's id) and rewritten
+   alone (rewrite_all_eids: fresh generator, same prefix) it is the same tree - its own id and every id
+   inside it *)
+Theorem C18_provision_ids_agree : forall tag attrs kids q s e1 s1,
+  identifiable tag = true -> clean_num (first_num_text kids) <> [] ->
+  fresh_for s (candidate q tag (clean_num (first_num_text kids))) ->
+  rewrite_eid (El tag attrs kids) q s = Some (e1, s1) ->
+  exists m, rewrite_all_eids (El tag attrs kids) q = Some (e1, m).
+Proof. exact provision_ids_local. Qed.
+Print Assumptions C18_provision_ids_agree.
+
+(* non-vacuity: after section 1 (with a subsection and a paragraph) under chp_1, the state is fresh for
+   section 2's id, and not for section 1's *)
+Definition sec (n : str) : xml :=
+  El (of_string "section") [] [El (of_string "num") [] [Tx n];
+    El (of_string "subsection") [] [El (of_string "num") [] [Tx (of_string "(1)")];
+      El (of_string "content") [] [El (of_string "p") [] [Tx (of_string "text")]]]].
+Example C18_fresh_example :
+  match rewrite_eid (sec (of_string "1.")) (of_string "chp_1") st0 with
+  | Some (_, s) => freshb s (candidate (of_string "chp_1") (of_string "section") (clean_num (of_string "2.")))
+                   && negb (freshb s (candidate (of_string "chp_1") (of_string "section") (clean_num (of_string "1."))))
+  | None => false
+  end = true.
+Proof. vm_compute. reflexivity. Qed.
